@@ -377,4 +377,258 @@ theorem run_max_lo (s : PS) (hre : s.rexp = false) (h51 : s.rparts = [] ∨ s.do
     simp [kwMax, kwMin, kwDots, startsWith, isSpace_m, chBar, isDigit, chMinus, chPlus, hre, hguard, hmm']
   exact Run.one hs (by simp [kwMax])
 
+/-! ### composition -/
+set_option maxRecDepth 100000 in
+theorem space_not_digit : ∀ c : UInt8, isSpace c = true → isDigit c = false := forall_uint8 (by decide)
+
+theorem NoDigit_nil : NoDigit [] := by intro c h; simp at h
+
+theorem NoDigit_ws_then (o : OptSep) (d : UInt8) (Y : Bytes) (hd : isDigit d = false) : NoDigit (o.s ++ d :: Y) := by
+  intro c hc
+  cases ho : o.s with
+  | nil => rw [ho] at hc; simp at hc; rw [← hc]; exact hd
+  | cons a r =>
+    rw [ho] at hc; simp at hc; rw [← hc]
+    exact space_not_digit a (o.sp a (by simp [ho]))
+
+theorem Bnd.render_head (b : Bnd) : ∃ h tl, b.render = h :: tl ∧ isSpace h = false := by
+  cases b with
+  | min => exact ⟨0x6d, [0x69, 0x6e], rfl, by decide⟩
+  | max => exact ⟨0x6d, [0x61, 0x78], rfl, by decide⟩
+  | num n =>
+    obtain ⟨h, tl, hr, hh⟩ := n.render_head
+    exact ⟨h, tl, hr, (digit_facts h hh).1⟩
+
+theorem StrictAsc_snoc : ∀ (pre : List Part) (v : Part), StrictAsc (pre ++ [v]) →
+    v.min ≤ v.max ∧ ∀ q, pre.getLast? = some q → q.max < v.min
+  | [], v, h => ⟨h, by intro q hq; simp at hq⟩
+  | [a], v, h => ⟨h.2.2, by intro q hq; simp at hq; rw [← hq]; exact h.2.1⟩
+  | a :: b :: r, v, h => by
+    have := StrictAsc_snoc (b :: r) v h.2.2
+    exact ⟨this.1, by intro q hq; exact this.2 q (by simpa using hq)⟩
+
+theorem StrictAsc_prefix : ∀ (pre : List Part) (v : Part) (vs : List Part), StrictAsc (pre ++ v :: vs) →
+    StrictAsc (pre ++ [v])
+  | [], v, [], h => h
+  | [], v, w :: vs, h => h.1
+  | [a], v, vs, h => by
+    have := StrictAsc_prefix [] v vs h.2.2
+    exact ⟨h.1, h.2.1, this⟩
+  | a :: b :: r, v, vs, h => by
+    have := StrictAsc_prefix (b :: r) v vs h.2.2
+    exact ⟨h.1, h.2.1, this⟩
+
+/-- state when a part is about to start after `pre` (initially, or right after `|`), and when parts `P` are complete -/
+def Sbefore (pre : List Part) : PS := { rparts := pre.reverse, done := pre.length, rexp := false }
+def Sdone (P : List Part) : PS := { rparts := P.reverse, done := P.length - 1, rexp := false }
+
+theorem Sbefore_nil : Sbefore [] = {} := rfl
+
+/-- one `range-part` -/
+theorem run_part (p : PartA) (pre : List Part) (v : Part) (X : Bytes) (isLast : Bool) (hwf : t.WF)
+    (hk : p.KwOK pre.isEmpty isLast) (hval : p.value t base = some v) (hasc : StrictAsc (pre ++ [v]))
+    (hX : NoDigit X) (hlast : isLast = true → X = []) :
+    Run fx t base (p.render ++ X) (Sbefore pre) X (Sdone (pre ++ [v])) := by
+  obtain ⟨hvle, hprev⟩ := StrictAsc_snoc pre v hasc
+  have hhead : ∀ q, (Sbefore pre).rparts.head? = some q → pre.getLast? = some q := by
+    intro q hq; simpa [Sbefore, List.head?_reverse] using hq
+  -- after the lower boundary `l`: state with the single-value part ⟨l, l⟩
+  have afterLo : ∀ (l : Int) (Z : Bytes), p.lo.value t base = some l → NoDigit Z →
+      (p.lo matches .max → Z = []) → (∀ q, pre.getLast? = some q → q.max < l) →
+      Run fx t base (p.lo.render ++ Z) (Sbefore pre) Z { (Sbefore pre) with rparts := ⟨l, l⟩ :: pre.reverse } := by
+    intro l Z hl hZ hmaxZ hql
+    cases hlo : p.lo with
+    | min =>
+      rw [hlo] at hl
+      simp only [Bnd.value, Option.some.injEq] at hl
+      have hpre : pre = [] := by
+        have := hk.1 (by rw [hlo])
+        simpa using this
+      subst hpre
+      rw [← hl]
+      exact run_min fx t base Z (Sbefore []) rfl
+    | num n =>
+      rw [hlo] at hl
+      simp only [Bnd.value] at hl
+      split at hl
+      · rename_i hv
+        simp only [Option.some.injEq] at hl
+        rw [← hl]
+        exact run_num_lo fx t base n Z (Sbefore pre) hZ hwf hv rfl (Or.inr (by simp [Sbefore])) (by simp [Sbefore])
+          (fun _ q hq => by rw [hl]; exact hql q (hhead q hq))
+      · simp at hl
+    | max =>
+      rw [hlo] at hl
+      simp only [Bnd.value, Option.some.injEq] at hl
+      have hZ' : Z = [] := hmaxZ (by rw [hlo])
+      subst hZ'
+      rw [← hl]
+      simp only [Bnd.render, List.append_nil]
+      exact run_max_lo fx t base (Sbefore pre) rfl (Or.inr (by simp [Sbefore])) (by simp [Sbefore])
+        (fun _ q hq => by
+          have := hql q (hhead q hq)
+          rw [← hl] at this
+          omega)
+  unfold PartA.value at hval
+  cases hlov : p.lo.value t base with
+  | none => simp [hlov] at hval
+  | some l =>
+    rw [hlov] at hval
+    cases hhi : p.hi with
+    | none =>
+      rw [hhi] at hval
+      simp only [Option.some.injEq] at hval
+      subst hval
+      have hmaxX : (p.lo matches .max → X = []) := fun hm => hlast (hk.2.1 hm).1
+      have := afterLo l X hlov hX hmaxX hprev
+      simpa [PartA.render, hhi, Sdone, Sbefore] using this
+    | some trip =>
+      obtain ⟨o1, o2, b⟩ := trip
+      rw [hhi] at hval
+      simp only [Option.map_eq_some_iff] at hval
+      obtain ⟨hv', hbv, hveq⟩ := hval
+      subst hveq
+      simp only [] at hvle hprev
+      have hkb := hk.2.2 o1 o2 b hhi
+      have hnomax : ¬ (p.lo matches .max) := by
+        intro hm
+        have := (hk.2.1 hm).2
+        rw [hhi] at this; simp at this
+      obtain ⟨bh, btl, hbr, hbsp⟩ := b.render_head
+      -- lower boundary, blanks, `..` (+ blanks)
+      have r1 := afterLo l (o1.s ++ (kwDots ++ (o2.s ++ (b.render ++ X)))) hlov
+        (NoDigit_ws_then o1 chDot _ (by decide)) (fun hm => absurd hm hnomax) hprev
+      have r2 := run_spaces fx t base o1.s (kwDots ++ (o2.s ++ (b.render ++ X)))
+        { (Sbefore pre) with rparts := ⟨l, l⟩ :: pre.reverse } o1.sp
+      have r3 := run_dots fx t base o2.s (b.render ++ X) { (Sbefore pre) with rparts := ⟨l, l⟩ :: pre.reverse } o2.sp
+        (by intro c hc; rw [hbr] at hc; simp at hc; rw [← hc]; exact hbsp) (by simp) (by simp [Sbefore])
+      -- upper boundary
+      have r4 : Run fx t base (b.render ++ X)
+          { ({ (Sbefore pre) with rparts := ⟨l, l⟩ :: pre.reverse } : PS) with rexp := true } X
+          (Sdone (pre ++ [⟨l, hv'⟩])) := by
+        cases hb : b with
+        | min => rw [hb] at hkb; exact absurd rfl hkb.1
+        | num n =>
+          rw [hb] at hbv
+          simp only [Bnd.value] at hbv
+          split at hbv
+          · rename_i hvn
+            simp only [Option.some.injEq] at hbv
+            have := run_num_hi fx t base n X
+              { ({ (Sbefore pre) with rparts := ⟨l, l⟩ :: pre.reverse } : PS) with rexp := true } ⟨l, l⟩ pre.reverse hX hwf
+              hvn rfl rfl (by rw [hbv]; exact hvle)
+            simpa [Bnd.render, Sdone, Sbefore, hbv] using this
+          · simp at hbv
+        | max =>
+          rw [hb] at hbv hkb
+          simp only [Bnd.value, Option.some.injEq] at hbv
+          have hXn : X = [] := hlast (hkb.2 rfl)
+          subst hXn
+          have := run_max_hi fx t base
+            { ({ (Sbefore pre) with rparts := ⟨l, l⟩ :: pre.reverse } : PS) with rexp := true } ⟨l, l⟩ pre.reverse rfl rfl
+            (by rw [hbv]; exact hvle)
+          simpa [Bnd.render, Sdone, Sbefore, hbv] using this
+      have := (r1.trans r2).trans (r3.trans r4)
+      simpa [PartA.render, hhi, List.append_assoc] using this
+
+theorem Sdone_bar (pre : List Part) (hne : pre ≠ []) :
+    ({ (Sdone pre) with done := (Sdone pre).done + 1 } : PS) = Sbefore pre := by
+  have : pre.length ≠ 0 := by intro h; exact hne (List.eq_nil_of_length_eq_zero h)
+  simp only [Sdone, Sbefore, PS.mk.injEq, true_and, and_true]
+  omega
+
+/-- `*(optsep "|" optsep range-part)` -/
+theorem run_rest (hwf : t.WF) : ∀ (rest : List (OptSep × OptSep × PartA)) (pre vs : List Part), pre ≠ [] →
+    valuesRest t base rest = some vs → RestKwOK rest → StrictAsc (pre ++ vs) →
+    Run fx t base (renderRest rest) (Sdone pre) [] (Sdone (pre ++ vs))
+  | [], pre, vs, _, hv, _, _ => by
+    simp only [valuesRest, Option.some.injEq] at hv
+    subst hv
+    simpa [renderRest] using Run.refl [] (Sdone pre)
+  | (o1, o2, p) :: r, pre, vs, hne, hv, hk, hasc => by
+    simp only [valuesRest] at hv
+    cases hpv : p.value t base with
+    | none => simp [hpv] at hv
+    | some v =>
+      cases hrv : valuesRest t base r with
+      | none => simp [hpv, hrv] at hv
+      | some vs' =>
+        simp only [hpv, hrv, Option.some.injEq] at hv
+        subst hv
+        have hpk : p.KwOK false r.isEmpty ∧ RestKwOK r := by
+          cases r with
+          | nil => exact ⟨hk, trivial⟩
+          | cons q r' => exact ⟨hk.1, hk.2⟩
+        have hasc1 : StrictAsc (pre ++ [v]) := StrictAsc_prefix pre v vs' hasc
+        have hXnd : NoDigit (renderRest r) := by
+          cases r with
+          | nil => exact NoDigit_nil
+          | cons q r' =>
+            obtain ⟨q1, q2, qp⟩ := q
+            simp only [renderRest, List.append_assoc, List.singleton_append]
+            exact NoDigit_ws_then q1 chBar _ (by decide)
+        have hlast : r.isEmpty = true → renderRest r = [] := by
+          intro h
+          have : r = [] := by simpa using h
+          rw [this]; rfl
+        have hem : pre.isEmpty = false := by
+          cases pre with
+          | nil => exact absurd rfl hne
+          | cons _ _ => rfl
+        have r1 := run_spaces fx t base o1.s (chBar :: (o2.s ++ (p.render ++ renderRest r))) (Sdone pre) o1.sp
+        have r2 := run_bar fx t base (o2.s ++ (p.render ++ renderRest r)) (Sdone pre)
+          (by simp [Sdone]; exact hne) rfl
+          (by
+            have : pre.length ≠ 0 := by intro h; exact hne (List.eq_nil_of_length_eq_zero h)
+            simp [Sdone]; omega)
+        rw [Sdone_bar pre hne] at r2
+        have r3 := run_spaces fx t base o2.s (p.render ++ renderRest r) (Sbefore pre) o2.sp
+        have r4 := run_part fx t base p pre v (renderRest r) r.isEmpty hwf (by rw [hem]; exact hpk.1) hpv hasc1 hXnd hlast
+        have r5 := run_rest hwf r (pre ++ [v]) vs' (by simp) hrv hpk.2 (by simpa using hasc)
+        have := (r1.trans r2).trans (r3.trans (r4.trans r5))
+        simpa [renderRest, List.append_assoc] using this
+
+/-- at the end of the argument the loop breaks with the collected parts -/
+theorem step_end (P : List Part) (hne : P ≠ []) : step fx t base [] (Sdone P) = .done (P, P.length) := by
+  have hl : P.length ≠ 0 := by intro h; exact hne (List.eq_nil_of_length_eq_zero h)
+  have h1 : (P.reverse.isEmpty) = false := by
+    cases h : P.reverse with
+    | nil => exact absurd (by simpa using h) hne
+    | cons _ _ => rfl
+  have h2 : (P.length - 1 == P.reverse.length) = false := by simp; omega
+  have h3 : P.length - 1 + 1 = P.length := by omega
+  have h4 : ¬ (P.length - 1 = P.length) := by omega
+  simp [step, Sdone, h1, h3, h4]
+
+/-- **the part parser on a grammatical argument**: exactly the denoted parts, and `parts_done` = their number -/
+theorem loop_grammatical (hwf : t.WF) (a : RangeA) (P : List Part) (hk : a.KwOK) (hv : a.values t base = some P)
+    (hasc : StrictAsc P) : loop fx t base (a.render.length + 1) a.render {} = .ok (P, P.length) := by
+  unfold RangeA.values at hv
+  cases hfv : a.first.value t base with
+  | none => simp [hfv] at hv
+  | some v =>
+    cases hrv : valuesRest t base a.rest with
+    | none => simp [hfv, hrv] at hv
+    | some vs =>
+      simp only [hfv, hrv, Option.some.injEq] at hv
+      subst hv
+      have hXnd : NoDigit (renderRest a.rest) := by
+        cases h : a.rest with
+        | nil => exact NoDigit_nil
+        | cons q r' =>
+          obtain ⟨q1, q2, qp⟩ := q
+          simp only [renderRest, List.append_assoc, List.singleton_append]
+          exact NoDigit_ws_then q1 chBar _ (by decide)
+      have hlast : a.rest.isEmpty = true → renderRest a.rest = [] := by
+        intro h
+        have : a.rest = [] := by simpa using h
+        rw [this]; rfl
+      have r1 := run_part fx t base a.first [] v (renderRest a.rest) a.rest.isEmpty hwf (by simpa using hk.1) hfv
+        (by simpa using StrictAsc_prefix [] v vs hasc) hXnd hlast
+      have r2 := run_rest fx t base hwf a.rest [v] vs (by simp) hrv hk.2 (by simpa using hasc)
+      have hrun : Run fx t base a.render {} [] (Sdone (v :: vs)) := by
+        have := r1.trans r2
+        simpa [RangeA.render, Sbefore_nil] using this
+      exact loop_of_run hrun (step_end fx t base (v :: vs) (by simp))
+
 end LyModel.Range
